@@ -4348,8 +4348,11 @@ func (c *Compiler[_, _]) addGlobalsFromImportedProgram(location common.Location,
 		return
 	}
 
-	// If the imports are already added for this location, then no need to add again.
-	if _, ok := c.addedImports[location]; ok {
+	// If the imports are already added for this location, then no need to add again,
+	// unless the import has aliases: the location might have been added already without them,
+	// e.g. as a transitive import of another import, so the aliased globals still need to be added.
+	_, alreadyAdded := c.addedImports[location]
+	if alreadyAdded && len(aliases) == 0 {
 		return
 	}
 
@@ -4390,6 +4393,11 @@ func (c *Compiler[_, _]) addGlobalsFromImportedProgram(location common.Location,
 	}
 
 	c.addedImports[location] = struct{}{}
+
+	// The transitive imports were already added when the location was added
+	if alreadyAdded {
+		return
+	}
 
 	// Recursively add transitive imports.
 	for _, impt := range importedProgram.Imports {
